@@ -219,11 +219,13 @@ func (pd *perBitData) parseBitString(extensed bool, lowerBoundPtr *int64, upperB
 				err := fmt.Errorf("PER data out of range")
 				return bitString, err
 			}
-			bitString.Bytes = pd.bytes[pd.byteOffset : pd.byteOffset+sizes]
+			bitString.Bytes = append([]byte{}, pd.bytes[pd.byteOffset:pd.byteOffset+sizes]...)
 			pd.byteOffset += sizes
 			pd.bitsOffset = uint(ub & 0x7)
 			if pd.bitsOffset > 0 {
 				pd.byteOffset--
+				// the unused bits of the last octet belong to the next field
+				bitString.Bytes[sizes-1] &= 0xff << (8 - pd.bitsOffset)
 			}
 			perTrace(1, perBitLog(uint64(ub), pd.byteOffset, pd.bitsOffset, bitString.Bytes))
 		} else {
@@ -266,6 +268,8 @@ func (pd *perBitData) parseBitString(extensed bool, lowerBoundPtr *int64, upperB
 		pd.bitsOffset = uint(rawLength & 0x7)
 		if pd.bitsOffset != 0 {
 			pd.byteOffset--
+			// the unused bits of the last octet belong to the next field
+			bitString.Bytes[len(bitString.Bytes)-1] &= 0xff << (8 - pd.bitsOffset)
 		}
 		perTrace(1, perBitLog(rawLength, pd.byteOffset, pd.bitsOffset, bitString.Bytes))
 		perTrace(2, fmt.Sprintf("Decoded BIT STRING (length = %d): %0.8b", rawLength, bitString.Bytes))
